@@ -53,7 +53,11 @@ ENUMS = {   # python enum class name -> (lean type, {member: ctor})
 
 
 def is_int_ty(t):
-    return t in ("Int", "Nat", "Flags")
+    return t in ("Int", "Nat", "Flags", "Lit")
+
+
+def is_nat_ty(t):
+    return t in ("Nat", "Flags", "Lit")
 
 
 def const_to_lean(val):
@@ -76,7 +80,7 @@ def const_to_lean(val):
             raise NotTranslatable(f"enum {cls}.{val.name}")
         return (f"{ENUMS[cls][0]}.{ENUMS[cls][1][val.name]}", "Enum:" + ENUMS[cls][0])
     if isinstance(val, int):
-        return (str(val) if val >= 0 else f"({val})", "Int")
+        return (str(val), "Lit") if val >= 0 else (f"({val})", "Int")
     if isinstance(val, float):
         fr = Fraction(repr(val))
         return (f"(Q.mk ({fr.numerator}) {fr.denominator})", "Q")
@@ -116,6 +120,8 @@ def _balanced(s):
 def as_int(e, t):
     if t == "Int":
         return e
+    if t == "Lit":
+        return f"({e} : Int)"
     if t in ("Nat", "Flags"):
         return f"(({e} : Nat) : Int)"
     raise NotTranslatable(f"int expected, got {t}")
@@ -158,15 +164,50 @@ class Fn:
         e, t = self.expr(node, env)
         return self.truthy(e, t)
 
+    def default_of(self, t):
+        if t == "Bool":
+            return "false"
+        if is_int_ty(t):
+            return "0"
+        if t == "QSet":
+            return "QSet.empty"
+        if t.startswith("Enum:"):
+            for ty, m in ENUMS.values():
+                if ty == t[5:]:
+                    return f"{ty}.{next(iter(m.values()))}"
+        if t.startswith("Opt:"):
+            return "none"
+        raise NotTranslatable(f"no default value of type {t}")
+
+    def fields(self, e, t, rest):
+        """attribute path `rest` on a value `e` of type `t` (records through the target's record table; an optional
+        value is dereferenced with a default for None - AttributeError in Python, named in the trusted base)"""
+        if not rest:
+            return (e, t)
+        if t.startswith("Opt:"):
+            ie, it = self.fields("v", t[4:], rest)
+            return (f"(Option.elim {par(e)} {par(self.default_of(it))} (fun v => {ie}))", it)
+        if t.startswith("Rec:"):
+            table = self.t.get("records", {}).get(t[4:], {})
+            for j in range(len(rest), 0, -1):
+                key = ".".join(rest[:j])
+                if key in table:
+                    suffix, ft = table[key]
+                    return self.fields(f"{e}{suffix}", ft, rest[j:])
+        raise NotTranslatable(f"attribute {'.'.join(rest)} of a value of type {t}")
+
     def lookup(self, node, env):
         d = dotted(node)
         if d is None:
             return None
-        if d in env:
-            if env[d] is None:
-                raise NotTranslatable(f"{d} is only assigned on some paths")
-            return env[d]
-        # a prefix bound to a record whose remaining attributes are bound through the binding table
+        parts = d.split(".")
+        for k in range(len(parts), 0, -1):
+            pre = ".".join(parts[:k])
+            if pre in env:
+                if env[pre] is None:
+                    raise NotTranslatable(f"{pre} is only assigned on some paths")
+                e, t = env[pre]
+                return self.fields(e, t, parts[k:])
         # constant of the function's module?
         try:
             val = eval(d, self.glob)  # noqa: S307 - evaluating names of the module under translation
@@ -273,8 +314,14 @@ class Fn:
             return (f"({a} ++ {b})", ta if ta != "List:_" else tb)
         if not (is_int_ty(ta) and is_int_ty(tb)):
             raise NotTranslatable(f"operator {type(op).__name__} on {ta}, {tb}")
-        flags = ta == "Flags" and tb == "Flags"
-        nat = ta in ("Nat", "Flags") and tb in ("Nat", "Flags")
+        if ta == "Lit" and tb == "Lit":
+            import operator
+            f = {ast.Add: operator.add, ast.Sub: operator.sub, ast.Mult: operator.mul, ast.BitAnd: operator.and_,
+                 ast.BitOr: operator.or_, ast.BitXor: operator.xor, ast.LShift: operator.lshift, ast.RShift: operator.rshift}.get(type(op))
+            if f:
+                return const_to_lean(f(int(a), int(b)))
+        flags = "Flags" in (ta, tb) and {ta, tb} <= {"Flags", "Lit"}
+        nat = is_nat_ty(ta) and is_nat_ty(tb)
         if isinstance(op, (ast.BitAnd, ast.BitOr, ast.BitXor)):
             sym = {ast.BitAnd: "&&&", ast.BitOr: "|||", ast.BitXor: "^^^"}[type(op)]
             if nat:
@@ -316,7 +363,7 @@ class Fn:
             raise NotTranslatable("`is` on values")
         if isinstance(op, (ast.In, ast.NotIn)):
             # IntFlag containment: `mask in value`  =  value & mask == mask
-            if ta == "Flags" and tb == "Flags":
+            if {ta, tb} <= {"Flags", "Lit"} and "Flags" in (ta, tb):
                 c = f"(({b} &&& {a}) == {a})"
                 return c if isinstance(op, ast.In) else f"(!{c})"
             raise NotTranslatable("`in` on these operands")
@@ -336,7 +383,7 @@ class Fn:
             conv = lambda e, t: f"(if {e} then (1 : Int) else 0)" if t == "Bool" else as_int(e, t)  # noqa: E731
             a, b, ta, tb = conv(a, ta), conv(b, tb), "Int", "Int"
         if is_int_ty(ta) and is_int_ty(tb):
-            if not (ta in ("Nat", "Flags") and tb in ("Nat", "Flags")):
+            if not (is_nat_ty(ta) and is_nat_ty(tb)):
                 a, b = as_int(a, ta), as_int(b, tb)
             sym = {ast.Lt: "<", ast.LtE: "≤", ast.Gt: ">", ast.GtE: "≥"}.get(type(op))
             if sym:
@@ -455,7 +502,7 @@ class Fn:
             lname = self.lean_name(name)
             env2 = dict(env)
             env2[name] = (lname, t)
-            ann = f" : {self.lean_ty(t)}" if t.startswith("List:") and t != "List:_" else ""
+            ann = f" : {self.lean_ty(t)}" if t.startswith(("List:", "Opt:")) and not t.endswith(":_") else ""
             return f"{pad}let {lname}{ann} := {e}\n" + nxt(env2, ind)
         if isinstance(s, ast.Expr) and isinstance(s.value, ast.Call):
             c = s.value
@@ -588,6 +635,8 @@ class Fn:
             return f"Option {par(self.lean_ty(t[4:]))}"
         if t.startswith("Enum:"):
             return t[5:]
+        if t.startswith("Rec:"):
+            return t[4:]
         if t.startswith("Tuple:"):
             return " × ".join(par(self.lean_ty(u)) for u in split_top(t[6:]))
         if t.startswith("List:"):
@@ -606,6 +655,8 @@ class Fn:
             return e
         if want == "Int" and is_int_ty(t):
             return as_int(e, t)
+        if want == "Nat" and is_nat_ty(t):
+            return e
         if want == "Bool":
             return self.truthy(e, t)
         raise NotTranslatable(f"cannot convert {t} to {want}")
@@ -616,6 +667,21 @@ class Fn:
     def if_stmt(self, s, rest, env, cont, ind):
         pad = "  " * ind
         nxt = lambda env2, ind2: self.block(rest, env2, cont, ind2)  # noqa: E731
+        # narrowing:  `if X is None: <does not fall through>`  /  `if X is not None: ... else: <does not fall through>`
+        tt = s.test
+        if (isinstance(tt, ast.Compare) and len(tt.ops) == 1 and isinstance(tt.ops[0], (ast.Is, ast.IsNot))
+                and isinstance(tt.comparators[0], ast.Constant) and tt.comparators[0].value is None
+                and isinstance(tt.left, ast.Name) and tt.left.id in env and env[tt.left.id] is not None
+                and env[tt.left.id][1].startswith("Opt:") and env[tt.left.id][1] != "Opt:_"):
+            x = tt.left.id
+            none_branch, some_branch = (s.body, s.orelse) if isinstance(tt.ops[0], ast.Is) else (s.orelse, s.body)
+            if not self.falls(none_branch):
+                xe, xt = env[x]
+                env_some = dict(env)
+                env_some[x] = (self.lean_name(x), xt[4:])
+                a = self.block(list(none_branch), env, nxt, ind + 1)
+                b = self.block(list(some_branch), env_some, nxt, ind + 1)
+                return f"{pad}Option.elim {par(xe)} (\n{a}) (fun {self.lean_name(x)} =>\n{b})"
         c = self.cond(s.test, env)
         leaves = self.fall_leaves(s.body) + self.fall_leaves(s.orelse)
         if leaves <= 1 or (not rest and getattr(cont, "cheap", False)):
@@ -632,11 +698,19 @@ class Fn:
         types = {}
 
         def yield_vars(env2, ind2):
+            out = []
             for v in vs:
-                types.setdefault(v, env2[v][1])
-                if types[v] == "List:_":
-                    types[v] = env2[v][1]
-            vals = "(" + ", ".join(env2[v][0] for v in vs) + ")" if vs else "()"
+                pre_t = env[v][1]
+                e2, t2 = env2[v]
+                if pre_t in ("List:_", "Opt:_") and t2 != pre_t:
+                    types[v] = t2
+                elif pre_t.startswith("Opt:") and not t2.startswith("Opt:"):
+                    e2 = f"(some {e2})"
+                    types.setdefault(v, pre_t)
+                else:
+                    types.setdefault(v, t2 if pre_t.endswith(":_") else pre_t)
+                out.append(e2)
+            vals = "(" + ", ".join(out) + ")" if vs else "()"
             return "  " * ind2 + (f"(Sum.inr {vals})" if exits else vals)
         yield_vars.cheap = True
         if exits:
@@ -667,8 +741,16 @@ class Fn:
         return (f"{pad}Sum.elim (fun r => {self.wrap_ret('r')}) (fun ({one} : {vty}) =>\n" + unpack(ind + 1) + nxt(env2, ind + 1) + ")\n"
                 f"{pad}  ((if {c} then\n{a}\n{pad}  else\n{b}) : Sum ({rty}) ({vty}))")
 
+    LEAN_KEYWORDS = {"match", "end", "from", "at", "fun", "let", "in", "do", "then", "else", "if", "with", "open", "def", "theorem",
+                     "instance", "where", "have", "show", "by", "local", "section", "namespace", "universe", "variable", "import",
+                     "return", "for", "structure", "class", "inductive", "mutual", "private", "protected", "macro", "syntax",
+                     "deriving", "extends", "using", "calc", "nomatch", "nofun", "unless", "try", "catch", "finally", "break",
+                     "continue", "mut", "example", "abbrev", "axiom", "opaque", "partial", "unsafe", "noncomputable", "attribute",
+                     "export", "prefix", "infix", "infixl", "infixr", "postfix", "notation", "set_option", "Type", "Sort", "Prop", "at"}
+
     def lean_name(self, name):
-        return name.replace(".", "_")
+        n = name.replace(".", "_")
+        return n + "'" if n in self.LEAN_KEYWORDS else n
 
     def for_loop(self, s, rest, env, cont, ind):
         pad = "  " * ind
@@ -719,19 +801,7 @@ class Fn:
         carried = [(self.lean_name(v), env[v][1]) for v in assigned]
         x = s.target.id
 
-        def lean_ty(t):
-            return self.t["lean_types"][t] if t in self.t.get("lean_types", {}) else {"Int": "Int", "Nat": "Nat", "Bool": "Bool", "QSet": "QSet"}.get(t) or _ty(t)
-
-        def _ty(t):
-            if t.startswith("Opt:"):
-                return f"Option {par(lean_ty(t[4:]))}"
-            if t.startswith("Enum:"):
-                return t[5:]
-            if t.startswith("Tuple:"):
-                return " × ".join(lean_ty(u) for u in t[6:].split(","))
-            if t.startswith("List:"):
-                return f"List {par(lean_ty(t[5:]))}"
-            raise NotTranslatable(f"no Lean type for {t}")
+        lean_ty = self.lean_ty
         env_nil = dict(env)
         for v, (ln, ty) in zip(assigned, carried):
             env_nil[v] = (ln, ty)
